@@ -8,6 +8,10 @@
 -/
 import Proofs.GenWordOps
 import Proofs.GenTables
+import Proofs.Asm
+import Proofs.AsmBlocks
+import Proofs.AsmLoops
+import Proofs.AsmWrappers
 
 namespace Decimal.C07
 open Decimal.Gen
@@ -67,5 +71,55 @@ theorem tables_correct : pow10tab = (List.range 20).map (10 ^ ·) ∧ pow5tab = 
 
 -- non-vacuity: concrete instances satisfy the hypotheses
 example : div10W_g 9999999999999999999 18446744073709551615 = (18446744073709551615, 9999999999999999999) := by decide
+
+open Decimal.Asm Decimal.Gen.Asm
+
+/-! ## Part (b): the amd64 assembly, REGENERATED from dec_arith_amd64.s on every run
+(DecimalModel/Gen/Asm.lean: one SSA let-chain per basic block; DecimalModel/AsmSem.lean: the
+machine state and the block runner; DecimalModel/AsmRoutines.lean: Go-signature wrappers).
+Statements are in Proofs/Asm.lean (tier A), Proofs/AsmBlocks.lean (tier B, 74 block lemmas: every
+block of every routine, incl. the 4x-unrolled bodies = four Go word steps, the table row fetch with
+the 16-bit load + RORW, the copy loops), Proofs/AsmLoops.lean (tier C). -/
+
+/-- `·div10W` = the mathematical definition, all inputs in the precondition. -/
+theorem asm_div10W_correct (n1 n0 : Nat) (h1 : n1 < 10000000000000000000) (h0 : n0 < W) :
+    asm_div10W n1 n0 = some ((n1 * W + n0) / 10000000000000000000, (n1 * W + n0) % 10000000000000000000) :=
+  asm_div10W_spec n1 n0 h1 h0
+
+theorem asm_mul10WW_correct (x y : Nat) (hx : x < 10000000000000000000) (hy : y < 10000000000000000000) :
+    asm_mul10WW x y = some (x * y / 10000000000000000000, x * y % 10000000000000000000) :=
+  asm_mul10WW_spec x y hx hy
+
+/-- assembly = regenerated portable Go kernel (statement (c) of the property) -/
+theorem asm_div10W_eq_portable (n1 n0 : Nat) (h1 : n1 < 10000000000000000000) (h0 : n0 < W) :
+    asm_div10W n1 n0 = some (div10W_g n1 n0) := asm_div10W_eq_go n1 n0 h1 h0
+
+theorem asm_mul10WW_eq_portable (x y : Nat) (hx : x < 10000000000000000000) (hy : y < 10000000000000000000) :
+    asm_mul10WW x y = some (mul10WW_g x y) := asm_mul10WW_eq_go x y hx hy
+
+theorem asm_div10WW_correct : type_of% @asm_div10WW_spec := @asm_div10WW_spec
+theorem asm_div10WW_eq_portable : type_of% @asm_div10WW_eq_go := @asm_div10WW_eq_go
+
+/-- Whole-routine theorems, every length n < 2^60, memory level: the routine terminates, writes the
+    specified words to z, returns the carry in the frame, leaves all other memory and the trap flag
+    unchanged; the destination may be the source itself or lie below it (`zp ≤ xp ∨ xp + 8n ≤ zp`). -/
+theorem asm_add10VV_routine : type_of% @add10VV_correct := @add10VV_correct
+theorem asm_sub10VV_routine : type_of% @sub10VV_correct := @sub10VV_correct
+theorem asm_mulAdd10VWW_routine : type_of% @mulAdd10VWW_correct := @mulAdd10VWW_correct
+theorem asm_addMul10VVW_routine : type_of% @addMul10VVW_correct := @addMul10VVW_correct
+theorem asm_div10VWW_routine : type_of% @div10VWW_correct := @div10VWW_correct
+/-- the value computed by those routines is the arithmetic one -/
+theorem asm_addVV_value : type_of% @addVV_value := @addVV_value
+theorem asm_subVV_value : type_of% @subVV_value := @subVV_value
+theorem asm_mulAddVWW_value : type_of% @mulAddVWW_value := @mulAddVWW_value
+theorem asm_addMulVVW_value : type_of% @addMulVVW_value := @addMulVVW_value
+theorem asm_divMS_value : type_of% @divMS_value := @divMS_value
+/-- wrapper level (Go signature) for mulAdd10VWW -/
+theorem asm_mulAdd10VWW_wrapper : type_of% @asm_mulAdd10VWW_spec := @asm_mulAdd10VWW_spec
+
+/- PARTIAL (stated in notes/ASM_NOTES.md section 4, not proved): whole-routine theorems for
+   add10VW, sub10VW, shl10VU, shr10VU (with their decCpy/decCpyInv tails). Every block lemma they
+   need is proved in Proofs/AsmBlocks.lean; those routines are otherwise tied by execution:
+   CPU vs portable Go vs Lean-executed translated assembly vs the L0 model vs arithmetic. -/
 
 end Decimal.C07
